@@ -81,6 +81,16 @@ CHECKS = {
    text="DilithiumPack.tla states bit packing once (value i occupies bits [i*w,(i+1)*w) of a little-endian stream); each library packer is PackBits(width, offset - c). Design: TLC checks unpack(pack(v)) = v and pack(unpack(b)) = b for every lane of an 8-value group over all values (thorough: all 2^20 z values per lane) with extreme neighbours, and the HintCodec round trips. Conformance through the aliases: per packer, extremes and one-hot values in every lane over four backgrounds, every coefficient position with both extremes, random polynomials, arbitrary byte strings decoded and re-encoded; hint vectors of weights 0,1,2,74,75,76,80 in four shapes through packSig/unpackSig (heavier than OMEGA must not be accepted); genuine, z-randomised and hint-mutated signatures through unpackSig and packSig again; public/secret key layouts; every event recomputed by TLC (TraceDilPack.tla).",
    note="Positions are covered by loop uniformity plus every position with both extremes; whole-signature re-encoding compared on digests.",
    technique="explicit TLA+ spec of the generic bit packer and hint codec + TLC; trace validation of the real packers/unpackers"),
+ "C06": dict(
+   level="model_checking", design_ref="6 (C06), 3.11, 2(d)",
+   text="XmssEq.tla is QRL-XMSS (n=32, w=16) as equations over a hash oracle with a FULL Merkle tree and no traversal state: seed expansion split, coreHash layout toByte(type,32)||key||in, PRF/F/H with keyAndMask 0/1/2 and XOR masks, big-endian address words, OTS seed and WOTS secret derivation, chains, L-tree with odd-node lift, tree nodes, public key, R, message hash key R||root||toByte(idx,32), base-w digits and checksum, signature layout. Conformance: a build-tagged hook records every coreHash call of key generation and signing; the harness audits every row against crypto/sha256 / x/crypto/sha3 called directly and hands the table to TLC (HashOracle.tla; a row the table lacks is computed by the same standard-library primitive in a helper process and counted). TLC recomputes from (seed, height, hash function) the leaves listed as complete, the whole tree above the leaves, the public key and the signatures at seeded indices, byte for byte against what the API returned (quick: h=4, one hash function rotating with the seed, 2 complete leaves, 2 signatures; thorough: 3 hash functions, every leaf and index at h=4, sampled leaves at h=6); also Verify == VerifyWithCustomWOTSParamW(16) and determinism of a second construction.",
+   note="Hash primitives are trusted (the Go packages the library itself uses, called directly). Leaves not listed as complete enter the tree equations as the library computed them.",
+   technique="explicit TLA+ specification of the scheme evaluated by TLC over recorded, audited hash calls of the real code (equational trace validation)"),
+ "C07": dict(
+   level="model_checking", design_ref="6 (C07), 3.10, 2(d)",
+   text="DilithiumEq.tla is Dilithium (round 3.1, level 5) as equations over SHAKE as an oracle with plain arithmetic modulo q: seed expansion, the four samplers as functions of byte streams (rejection sampling mod q, eta nibbles, gamma1 unpack, challenge with sign bits), the matrix sampled in the NTT domain with NTT defined by evaluation at the roots of X^256+1 (a butterfly network is proved equal to it on all unit vectors by TLC), Power2Round, Decompose, MakeHint, sparse products, key and signature layouts. Conformance: for seeded (seed, message) TLC recomputes from the seed: rho/key/tr, s1, s2 (complete), t1/t0 at seeded coefficient positions (t = A s1 + s2); and for signing: mu, rho'', y, challenge polynomial, z = y + c s1 and its exact norm for EVERY loop iteration (so every z-rejection and the accepted z are decided exactly; the iteration's challenge seed comes from the signing hook), the packed z and hint canonicity of the signature, and at seeded positions w = A y, its decomposition, c s2, c t0 and the hint bit; signing again in other call orders and from a second object gives identical bytes; the six samplers on crafted boundary streams (t = q-1, q, q+1, top bit, nibbles 14/15).",
+   note="SHAKE is trusted. The dense products are checked at seeded positions, so c~ = H(mu || w1) is not recomputed (it needs all 2048 coefficients of w: about 9 minutes of TLC per signature). Inputs are sampled.",
+   technique="explicit TLA+ specification of the scheme evaluated by TLC with the hash as an oracle (equational trace validation of recorded keys, signatures and loop iterations)"),
 }
 
 NOT_YET = {
